@@ -110,8 +110,25 @@ PolTotal(d) == Decision(d) \in {"reject", "master", "any"}
 PolStrip(d) == [d EXCEPT !.lead = "none", !.kwsep = "space", !.cs = "lower", !.trail = "none", !.chan = "query"]
 PolDecorationIrrelevant(d) == Decision(d) = Decision(PolStrip(d))
 
+(* each ground for the master obligation stands by itself: taking one of several grounds away    *)
+(* (lock clause, hint, probe) leaves the obligation in place                                     *)
+PolGrounds(d) == {g \in {"lock", "hint", "probe"} :
+                    \/ g = "lock" /\ LockingRead(d) /\ d.csl
+                    \/ g = "hint" /\ HasMasterHint(d)
+                    \/ g = "probe" /\ ReadOnlyProbe(d)}
+PolDrop(d, g) == CASE g = "lock"  -> [d EXCEPT !.lock = "none", !.lockopt = "none"]
+                   [] g = "hint"  -> [d EXCEPT !.hint = "none"]
+                   [] g = "probe" -> [d EXCEPT !.probe = "none"]
+PolGroundsIndependent(d) == \A g \in PolGrounds(d) :
+                               PolGrounds(d) # {g} => Decision(PolDrop(d, g)) = Decision(d)
+(* with check_select_lock off a lock clause is not a ground: removing it changes nothing *)
+PolUncheckedLockIrrelevant(d) == ~d.csl => Decision([d EXCEPT !.lock = "none", !.lockopt = "none", !.csl = TRUE]) = Decision(d)
+
 (* in a transaction nothing is replica-allowed, whatever else holds *)
 PolTxPinsMaster(d) == InTx(d) /\ ~MustReject(d) => MustUseMaster(d)
+(* ... and so do a user without read/write splitting and every statement that is not a read *)
+PolNoSplitPinsMaster(d) == ~d.ro /\ ~d.split /\ ~MustReject(d) => MustUseMaster(d)
+PolWritesPinMaster(d) == d.kind \notin ReadKinds /\ ~MustReject(d) => MustUseMaster(d)
 
 (* defaults of the decoration / context fields: used to count how decorated a descriptor is *)
 PolDefault == [lead |-> "none", kwsep |-> "space", cs |-> "lower", trail |-> "none",
@@ -126,13 +143,14 @@ PolNFeat(d) == Cardinality({f \in PolDecoFields : d[f] # PolDefault[f]})
 RefClasses     == {"sharded", "linked", "global", "plain"}
 ShardedClasses == {"sharded", "linked", "global"}     \* tables that have a routing rule
 Quals          == {"none", "db", "other"}             \* unqualified / rule database / another database
-Glues          == {"none", "cmt_before", "cmt_after", "spcmt_before", "nl_before", "nl_after", "tab_before"}
+Glues          == {"none", "cmt_before", "cmt_after", "spcmt_before", "nl_before", "nl_after", "tab_before",
+                   "paren_after"}                      \* INSERT INTO t(col, ...)
 Positions      == {"first", "comma", "join", "subq", "from2"}
 UKinds         == {"select", "delete", "update", "insert", "replace"}
 
-URef == [cls : RefClasses, cs : Cases, qual : Quals, bq : BOOLEAN, glue : Glues, pos : Positions]
+URef == [cls : RefClasses, cs : Cases, qual : Quals, bq : BOOLEAN, glue : Glues, pos : Positions, alias : BOOLEAN]
 
-PlainRef(q, p) == [cls |-> "plain", cs |-> "lower", qual |-> q, bq |-> FALSE, glue |-> "none", pos |-> p]
+PlainRef(q, p) == [cls |-> "plain", cs |-> "lower", qual |-> q, bq |-> FALSE, glue |-> "none", pos |-> p, alias |-> FALSE]
 
 (* positions a further table reference can take, per statement kind *)
 LaterPositions(k) == CASE k = "select" -> {"comma", "join", "subq", "from2"}
@@ -146,6 +164,11 @@ UWF(d) ==
     /\ d.refs[1].pos = "first"
     /\ \A i \in 2..Len(d.refs) : d.refs[i].pos \in LaterPositions(d.kind)
     /\ ~d.dbset => \A i \in DOMAIN d.refs : d.refs[i].qual # "none"   \* otherwise "no database selected"
+    /\ ~d.dbset => ~(d.kind = "delete" /\ \E i \in 2..Len(d.refs) : d.refs[i].pos \in {"comma", "join"})
+                                           \* multi-table DELETE names its target by an (unqualified) alias
+    /\ \A i \in DOMAIN d.refs :
+          /\ d.refs[i].glue = "paren_after" => d.kind \in {"insert", "replace"} /\ i = 1
+          /\ d.refs[i].alias => ~(d.kind \in {"insert", "replace"} /\ i = 1)
 
 (* the database a reference resolves in, and whether a routing rule exists for it *)
 RefInRuleDb(r, d) == IF r.qual = "none" THEN d.dbset ELSE r.qual = "db"
@@ -157,7 +180,7 @@ ParserSaysSharded(d) == \E i \in DOMAIN d.refs : RefIsSharded(d.refs[i], d)
 FastPathAllowed(d) == ~ParserSaysSharded(d)
 
 (* letter case, back-quotes, glued comments / line breaks and position do not change the analysis *)
-UStripRef(r) == [r EXCEPT !.cs = "lower", !.bq = FALSE, !.glue = "none"]
+UStripRef(r) == [r EXCEPT !.cs = "lower", !.bq = FALSE, !.glue = "none", !.alias = FALSE]
 UStrip(d) == [d EXCEPT !.refs = [i \in DOMAIN d.refs |-> UStripRef(d.refs[i])]]
 UDecorationIrrelevant(d) == ParserSaysSharded(d) = ParserSaysSharded(UStrip(d))
 UOrderIrrelevant(d) == \A i, j \in DOMAIN d.refs :
@@ -167,7 +190,19 @@ UOrderIrrelevant(d) == \A i, j \in DOMAIN d.refs :
                                         ELSE d.refs[k]]]
                           IN ParserSaysSharded(sw) = ParserSaysSharded(d)
 
-URefNFeat(r) == B2N(r.cs # "lower") + B2N(r.bq) + B2N(r.glue # "none") + B2N(r.qual # "none")
+(* references to tables without a routing rule do not matter for the analysis: dropping one (the  *)
+(* first remaining reference takes the first position) leaves ParserSaysSharded unchanged         *)
+UDropRef(d, i) == LET rest == [k \in 1..(Len(d.refs) - 1) |-> IF k < i THEN d.refs[k] ELSE d.refs[k + 1]]
+                  IN [d EXCEPT !.refs = [k \in DOMAIN rest |-> IF k = 1 THEN [rest[k] EXCEPT !.pos = "first"] ELSE rest[k]]]
+UUnshardedRefsIrrelevant(d) == \A i \in DOMAIN d.refs :
+                                  Len(d.refs) > 1 /\ ~RefIsSharded(d.refs[i], d)
+                                     => ParserSaysSharded(UDropRef(d, i)) = ParserSaysSharded(d)
+
+(* when every reference is qualified the session database does not matter *)
+USessionDbIrrelevantWhenQualified(d) ==
+    (\A i \in DOMAIN d.refs : d.refs[i].qual # "none") => ParserSaysSharded([d EXCEPT !.dbset = TRUE]) = ParserSaysSharded(d)
+
+URefNFeat(r) == B2N(r.cs # "lower") + B2N(r.bq) + B2N(r.glue # "none") + B2N(r.qual # "none") + B2N(r.alias)
 
 (* ============================================================================================ *)
 (* Part 3: C36                                                                                   *)
@@ -190,5 +225,7 @@ Text(items) == [n \in DOMAIN items |-> items[n].v]     \* the harness concatenat
 
 SameUpToLiteralsSpacingCaseComments(a, b) == Skeleton(a) = Skeleton(b)
 
-Rejected(a, blacklist) == \E b \in blacklist : Skeleton(a) = Skeleton(b)
+SkeletonsOf(blacklist) == {Skeleton(b) : b \in blacklist}
+RejectedBySkeletons(a, skels) == Skeleton(a) \in skels
+Rejected(a, blacklist) == RejectedBySkeletons(a, SkeletonsOf(blacklist))
 =================================================================================
